@@ -334,7 +334,7 @@ func (fs *FS) rename(oldname, newname string) error {
 		if err != nil {
 			_ = txn.Abort()
 		} else {
-			_, err = txn.Commit(context.Background())
+			err = commitAll(txn)
 		}
 		return err
 	}
